@@ -17,6 +17,8 @@ WITNESS_DOC = {
     "w6": "the private region API is callable from outside",
     "w7": "SliceInput outlives its bytes",
     "w8": "try_read_ref result outlives the context",
+    "w9": "get_ref_by_id result outlives the context that owns the object table",
+    "w10": "get_string_by_id result outlives the context that owns the string table",
 }
 
 
@@ -93,7 +95,7 @@ def lifetime_witnesses(an, rep):
         R.check(bad[1] == "ok", w.upper(), "witness compiles", "witness program is accepted by the compiler (or rejected for "
                 "another reason than expected): %s" % WITNESS_DOC[w], "witness/src/lib.rs mod " + w,
                 sample={"witness": w, "verdict": "rejected by rustc as expected", "what": WITNESS_DOC[w]})
-    R.floor("witnesses with twins", n, 8)
+    R.floor("witnesses with twins", n, 10)
     return R
 
 
